@@ -8,7 +8,8 @@
    Design = "code"; "no_binsearch" and "shift_only" are wrong variants. *)
 EXTENDS Integers, Bitwise, TLC
 
-CONSTANTS Design, W        \* start values u < 2^W
+CONSTANTS Design, W,       \* start values u < 2^W
+          Cond(_, _)      \* the condition the minimizer queries: CondThr for the exhaustive model, CondSet for recorded calls (MinimizeTrace)
 
 Small == 5
 RECURSIVE BitLen(_)
@@ -16,7 +17,8 @@ BitLen(x) == IF x = 0 THEN 0 ELSE 1 + BitLen(x \div 2)
 RECURSIVE Pow2(_)
 Pow2(i) == IF i = 0 THEN 1 ELSE 2 * Pow2(i - 1)
 
-Cond(x, k) == x >= k
+CondThr(x, k) == x >= k      \* a threshold property
+CondSet(x, S) == x \in S      \* an arbitrary predicate, given by the set of values it holds for
 Acc(best, x, k) == x < best /\ x >= Small /\ Cond(x, k)
 
 RECURSIVE RShift(_, _)
@@ -62,5 +64,5 @@ Spec == Init /\ [][Next]_<<u, k>>
 
 \* the minimizer reaches the exact boundary, and never leaves the failing region or grows
 Exact == Minimize(u, k) = k
-Sound == Cond(Minimize(u, k), k) /\ Minimize(u, k) <= u
+Sound == CondThr(Minimize(u, k), k) /\ Minimize(u, k) <= u
 =============================================================================
